@@ -42,7 +42,8 @@ def worker(i, q, out, lock):
         if ok:
             other = m["file"] == "node16_other.go"
             tier = "thorough" if (other or os.environ.get("MUT_TIER") == "thorough") else "quick"
-            rc, o = sh(f"/verif/bin/artcheck -sweep -tier {tier} -repo {w} -verif {v}", w, 300)
+            binp = os.environ.get("ARTCHECK_BIN", "/verif/bin/artcheck")
+            rc, o = sh(f"{binp} -sweep -tier {tier} -repo {w} -verif {v}", w, 300)
             line = (o.strip().splitlines() or [""])[0]
             if rc == 3:
                 res["verdict"] = "nocompile"
